@@ -77,6 +77,10 @@ Proof.
   - intros t ks Hq Hd. rewrite (no_interference s t H Hd), Hq. reflexivity.
 Qed.
 
+Lemma validator_error_isolated : forall s t e, reach s -> reqs t = RValidateX e -> tpc (thr s t) = Done ->
+  out (thr s t) = Some (PFault (Some e)).
+Proof. intros s t e H Hq Hd. rewrite (no_interference s t H Hd), Hq. reflexivity. Qed.
+
 Lemma errlog_isolated : forall s t ok e, reach s -> reqs t = RValidate ok e -> tpc (thr s t) = Done ->
   out (thr s t) = Some (if ok then PValid else PFault (Some e)).
 Proof. intros s t ok e H Hq Hd. rewrite (no_interference s t H Hd), Hq. reflexivity. Qed.
@@ -132,7 +136,7 @@ Proof.
                end
            end;
     try discriminate;
-    try (destruct Tu as ((ok & e & Hq) & Hvl); rewrite Hq in H; destruct ok);
+    try (destruct Tu as ([(ok & e & Hq)|(e & Hq)] & Hvl); rewrite Hq in H; try destruct ok);
     inversion H; subst s'; clear H;
     (split; [|split]); intros w Hw; simpl in *;
     (destruct (Z.eq_dec w u) as [E|E];
@@ -166,7 +170,7 @@ Proof.
                          in_mcrit (tpc (thr s w)) = true -> step Repaired reqs s w <> None).
   { intros w Hc. pose proof (T w) as Tw. unfold Proofs.tinv in Tw. unfold Model.step.
     destruct (tpc (thr s w)); simpl in Hc; try (exfalso; intuition discriminate); try discriminate.
-    destruct Tw as ((ok & e & Hq) & _). rewrite Hq. discriminate. }
+    destruct Tw as ([(ok & e & Hq)|(e & Hq)] & _); rewrite Hq; discriminate. }
   pose proof (T t) as Tt. unfold Proofs.tinv in Tt.
   destruct (tpc (thr s t)) eqn:Hpc; try contradiction; try congruence;
     try (exists t; unfold Model.step; rewrite Hpc; simpl;
